@@ -205,6 +205,9 @@ def check(case, ctx):
             if b._desc.name != name or tuple(tuple(f) for f in b._desc.get_field_tuples()) != tuple(tuple(f) for f in fields):
                 raise Violation("avro/descriptor", "read back as %r %r" % (b._desc.name, b._desc.get_field_tuples()))
             for t, n in fields:
+                from props.C05 import check_slot
+
+                check_slot(t, n, getattr(b, n), "avro read-back")  # decoded values are of the declared type (C05)
                 if not expect_equal(t, getattr(a, n), getattr(b, n)):
                     raise Violation("avro/value-differs" + tag, "field %s (%s): wrote %r, read %r" % (n, t, getattr(a, n), getattr(b, n)),
                                     detail=t)
